@@ -74,6 +74,9 @@ type Conn struct {
 
 	// NoYield disables the yield before each connection method.
 	NoYield bool
+	// YieldAfterPublish adds a yield point directly after a publish has been
+	// recorded (the message is out, the publisher has not continued).
+	YieldAfterPublish bool
 	// YieldFn, when set, replaces Sim.Yield for the connection's yields.
 	YieldFn func(point, arg string)
 
@@ -128,6 +131,14 @@ func (c *Conn) PublishRequest(subject, reply string, data []byte) error {
 
 func (c *Conn) publish(subject, reply string, payload []byte) error {
 	c.yield("conn.Publish", subject)
+	err := c.publishLocked(subject, reply, payload)
+	if c.YieldAfterPublish {
+		c.yield("conn.Published", subject)
+	}
+	return err
+}
+
+func (c *Conn) publishLocked(subject, reply string, payload []byte) error {
 	task := c.taskName()
 	c.mu.Lock()
 	defer c.mu.Unlock()
